@@ -36,7 +36,24 @@ class Report:
     def bad(self, rule, key, msg, where="", detail=None):
         self.obligations += 1
         self.instances.add((rule, key))
+        rs = self._reviewed()
+        full = "%s|%s" % (rule, key)
+        if full in rs:
+            # individually reviewed site (reviewed_safe.json): exact key, one reason; counts as discharged
+            self.discharged += 1
+            self.note("reviewed_safe", {"key": full, "reason": rs[full]})
+            return
         self.violations.append({"rule": rule, "key": "%s|%s" % (rule, key), "msg": msg, "where": where, "detail": detail})
+
+    def _reviewed(self):
+        if not hasattr(self, "_rs"):
+            self._rs = {}
+            p = os.path.join(VERIF, "reviewed_safe.json")
+            if os.path.exists(p):
+                for e in json.load(open(p))["entries"]:
+                    if e["property"] == self.prop:
+                        self._rs[e["key"]] = e["reason"]
+        return self._rs
 
     def check(self, cond, rule, key, msg, where="", detail=None, sample=None):
         if cond:
